@@ -54,7 +54,8 @@ def float_literal(draw, json_only=False):
     return {"text": t, "py": float(t)}
 
 
-WORDS = ["bare", "John", "x1", "a-b", "v2.5", "true", "none_", "ABC", "k_2", "0", "semi;colon", "a,b", "p:q"]
+WORDS = ["bare", "John", "x1", "a-b", "v2.5", "true", "none_", "ABC", "k_2", "0", "semi;colon", "a,b", "p:q",
+         "None", "True", "FALSE", "NONE"]        # a string is the text written: only lower-case none/true/false are keywords
 PHRASES = ["New York", "two  blanks", "with # hash", "it's", 'say "hi"', "trailing ", " leading", "a=b", "x y z", "[1, 2]"]
 
 
@@ -147,7 +148,8 @@ def typed_value(draw, allow_table=True):
     if k == "table":
         return "table", draw(table_value()), None
     if k == "blockstr":
-        lines = draw(st.lists(st.sampled_from(["Lorem ipsum dolor", "  indented line", "x = 3 # not a comment", "", "last"]),
+        lines = draw(st.lists(st.sampled_from(["Lorem ipsum dolor", "  indented line", "x = 3 # not a comment", "", "last",
+                                               "#!/bin/sh", "  # a body line that starts with a hash", "#alpha 1"]),
                               min_size=1, max_size=4))
         if lines[0] == "" or lines[-1] == "":
             lines = ["first"] + lines + ["end"]
